@@ -21,11 +21,13 @@ BOUNDS = {
     "quick": "event sequences of length 3 when the first event starts closing (local close / peer close / peer violation), length 2 otherwise, over 10 event kinds (local sendClose with free 16-bit code and 4 reason shapes, local send/ping, peer close with free 16-bit status + free reason octet / empty / 1-octet, peer data, peer ping, peer violation, fire next timer, peer TCP drop, delivery of our own drop), both roles, failByDrop on/off, echoCloseCodeReason on/off; encode_truncate: all strings of <= 3 free code points (0..0x10FFFF) with every limit 0..12, plus a 121-octet ASCII prefix with limit 123",
     "thorough": "sequences of length <= 4, closeHandshakeTimeout/serverConnectionDropTimeout in {0,1,2}; encode_truncate <= 4 code points",
 }
-EXPECT_COVERS = ["end:clean", "end:unclean", "close:local", "close:peer", "timer:fired", "trunc:cut", "trunc:whole"]
+EXPECT_COVERS = ["fail:layer", "end:clean", "end:unclean", "close:local", "close:peer", "timer:fired", "trunc:cut", "trunc:whole"]
 BUDGET = {"quick": dict(wall_s=400, max_paths=40000, diff_samples=4), "thorough": dict(wall_s=3000, max_paths=600000)}
 
 RANK = {1: 0, 4: 0, 3: 1, 2: 2, 0: 3}      # CONNECTING/PROXY < OPEN < CLOSING < CLOSED
-EVENTS = ["sendClose", "send", "ping", "peerClose", "peerData", "peerPing", "peerViolation", "timer", "peerDrop", "ownDrop"]
+EVENTS = ["sendClose", "send", "ping", "peerClose", "peerData", "peerPing", "peerViolation", "timer", "peerDrop", "ownDrop", "tick", "layerFail"]
+NEXT = 2            # events beyond the default alphabet (units with ext=True draw from all of them)
+TICK = 0.75        # "tick": time passes without reaching the next deadline exactly (a timer that is due within the tick fires)
 # inner menus: in sequence runs codes come from small menus (free within a legal range); the full 16-bit code space is explored by the dedicated `codes` units
 LEGAL_CODES = [1000, 1001, 1002, 1003, 1007, 1008, 1009, 1010, 1011, 1012, 1013]
 
@@ -43,7 +45,7 @@ def _utf8_valid(sx, bs):
 LAST_Q = ["sendClose", "send", "peerClose", "peerData", "peerViolation", "timer", "peerDrop", "ownDrop"]
 
 
-def lifecycle(sx, server, fbd, echo, first, K, tmo, full=False, second=None, quick=False, fw="twisted"):
+def lifecycle(sx, server, fbd, echo, first, K, tmo, full=False, second=None, quick=False, fw="twisted", ext=False):
     from twisted.python.failure import Failure
     from twisted.internet.error import ConnectionDone, ConnectionLost
     from autobahn.exception import Disconnected
@@ -85,7 +87,7 @@ def lifecycle(sx, server, fbd, echo, first, K, tmo, full=False, second=None, qui
             # last step of the quick tier: the events that can still change the outcome
             ev = EVENTS.index(LAST_Q[sx.choice("ev%d" % step, len(LAST_Q))])
         else:
-            ev = sx.choice("ev%d" % step, len(EVENTS))
+            ev = sx.choice("ev%d" % step, len(EVENTS) if ext else len(EVENTS) - NEXT)
         name = EVENTS[ev]
         var = 0
         log.append(name)
@@ -154,8 +156,8 @@ def lifecycle(sx, server, fbd, echo, first, K, tmo, full=False, second=None, qui
                     if pv and pc[1] is not None:
                         pv = _utf8_valid(sx, pc[1])
                     pc_valid.append(pv)
-                    if p.state == p.STATE_CLOSING and t_reply[0] is None:
-                        t_reply[0] = clock.seconds()
+                    if p.state == p.STATE_CLOSING and t_reply[0] is None and p.closedByMe:
+                        t_reply[0] = clock.seconds()          # the reply to OUR close frame (a repeated close frame of a peer that closed first is no reply)
                 p.dataReceived(wslib.build_frame(8, pl, mask=mask(step)))
                 sx.cover("close:peer")
             elif name == "peerData":
@@ -170,6 +172,19 @@ def lifecycle(sx, server, fbd, echo, first, K, tmo, full=False, second=None, qui
                     nxt = min(c.getTime() for c in calls)
                     clock.advance(max(0.0, nxt - clock.seconds()) + 0.0001)
                     sx.cover("timer:fired")
+            elif name == "tick":
+                clock.advance(TICK)
+            elif name == "layerFail":
+                # a layer on top (WAMP-over-WebSocket _bailout, the client's failing onConnect, WrappingWebSocket) fails the connection with
+                # its own, arbitrarily long reason text: free length around the 123-octet limit, free code point at the cut
+                Ls = [0, 120, 121, 122, 123, 200]
+                L = Ls[sx.choice("lfLen%d" % step, len(Ls))]
+                ch = sx.str("lf%d" % step, 1, 0x20, 0x10FFFF)
+                cp0 = ch.items[0] if sx.is_sym(ch) else ord(ch)
+                sx.assume(sx.Not(sx.And(cp0 >= 0xD800, cp0 <= 0xDFFF)))
+                codes = [1002, 3000]
+                p._fail_connection(codes[sx.choice("lfCode%d" % step, len(codes))], "x" * L + ch + "yz")
+                sx.cover("fail:layer")
             elif name == "peerDrop":
                 own_lost(ConnectionLost())
             elif name == "ownDrop":
@@ -334,6 +349,18 @@ def units(tier):
                              ("peerClose", "timer"), ("sendClose", "timer"), ("peerClose", "peerDrop"), ("sendClose", "peerDrop")):
                     U.append(("codes/%s/%s/%s/%s+%s" % ("S" if server else "C", "drop" if fbd else "hs", "echo" if echo else "-", a, b),
                               "lifecycle", dict(server=server, fbd=fbd, echo=echo, first=a, second=b, K=2, tmo=[1, 1], full=True), dict(weight=6)))
+    # time passing between the events without landing on a deadline (a repeated peer close frame, a late reply, traffic while closing)
+    for server in (True, False):
+        for first in ("sendClose", "peerClose"):
+            for tmo in ([(1, 1), (2, 1)] if q else [(1, 1), (2, 1), (1, 2), (2, 2)]):
+                U.append(("tick/%s/hs/%s+tick/t%d%d" % ("S" if server else "C", first, tmo[0], tmo[1]), "lifecycle",
+                          dict(server=server, fbd=False, echo=False, first=first, second="tick", K=3 if q else 4, tmo=list(tmo), ext=True), dict(weight=5)))
+    for server in (True, False):
+        for fbd in (True, False):
+            for a, b in ((("layerFail", None), ("sendClose", "layerFail"), ("peerClose", "layerFail")) if q else
+                         (("layerFail", None), ("sendClose", "layerFail"), ("peerClose", "layerFail"), ("send", "layerFail"), ("peerViolation", "layerFail"))):
+                U.append(("layerfail/%s/%s/%s+%s" % ("S" if server else "C", "drop" if fbd else "hs", a, b or "*"), "lifecycle",
+                          dict(server=server, fbd=fbd, echo=False, first=a, second=b, K=2 if q else 3, tmo=[1, 1]), dict(weight=4)))
     # the asyncio adapter on a virtual-time event loop (own interpreter per unit): same event alphabet, same monitors
     for server in (True, False):
         for fbd in ((False,) if q else (True, False)):
